@@ -39,7 +39,7 @@ def materialise(p, case):
         case.error = '%s: %s' % (type(ex).__name__, ex); return
     case.stage = 'gen'
     try:
-        case.text = vlog.emit(case.top)
+        case.text = case.emit(p, case.top) if case.emit else vlog.emit(case.top)
     except Exception as ex:
         case.error = '%s: %s' % (type(ex).__name__, str(ex)[:200]); return
     case.stage = 'parse'
@@ -48,6 +48,19 @@ def materialise(p, case):
     except vparse.VParseError as ex:
         case.error = str(ex); return
     case.stage = 'ok'
+    case.required, case.ext = requested(p, case)
+
+
+def requested(p, case):
+    """(name of the module the request is for, black-box list): a hierarchy request must define the requested block's module and
+    everything it instantiates (ext = []); a getVerilog request returns ONE module, whose non-inlined children are black boxes"""
+    import py4hw.rtl_generation as R
+    top = case.top
+    if case.mode == 'single':
+        gen = p.VerilogGenerator(top)
+        ext = sorted({R.getVerilogModuleName(ch) for ch in top.children.values() if not gen.isInlinable(ch)})
+        return R.getVerilogModuleName(top), ext
+    return R.getVerilogModuleName(top, noInstanceNumber=True), []
 
 
 def decode(v):
@@ -59,20 +72,20 @@ def decode(v):
     return b, out
 
 
-def evaluate(tag, texts_ast, ext=()):
-    """[(key, ast)] -> {key: (wf_design, report)}; one Coq case file per CHUNK designs"""
+def evaluate(tag, texts_ast):
+    """[(key, ast, ext)] -> {key: (wf_design, report)}; one Coq case file per CHUNK designs"""
     res = {}
-    extl = '[' + '; '.join(vparse.cq_str(x) for x in ext) + ']'
     for s in range(0, len(texts_ast), CHUNK):
         chunk = texts_ast[s:s + CHUNK]
         body, items = [PRELUDE], []
-        for i, (key, a) in enumerate(chunk):
+        for i, (key, a, ext) in enumerate(chunk):
+            extl = '[' + '; '.join(vparse.cq_str(x) for x in ext) + ']'
             body.append('Definition dsg%d : design := %s.' % (i, vparse.cq_design(a)))
             items.append(('r%d' % i, '(wf_design %s dsg%d, wf_report %s dsg%d)' % (extl, i, extl, i)))
         out = common.coq_eval('%s_%d' % (tag, s // CHUNK), '\n'.join(body), items, timeout=1200)
         try: os.remove(os.path.join(common.CASES, '%s_%d.v' % (tag, s // CHUNK)))      # large; the replay file carries the text
         except OSError: pass
-        for i, (key, a) in enumerate(chunk):
+        for i, (key, a, ext) in enumerate(chunk):
             res[key] = decode(out['r%d' % i])
     return res
 
@@ -372,6 +385,7 @@ def stream(ctx):
     cases += D.random_netlists(ctx.seed, 12 if q else 400)
     cases += D.behavioural()
     cases += D.adversarial(q)
+    cases += D.generator_reuse(q)      # order matters inside this group: consecutive calls on one generator object
     return cases
 
 
@@ -392,7 +406,7 @@ def run(ctx):
     ctx.level = 'translation_validation'
     ctx.cov['rule'] = ('program = one hierarchy emitted by the real VerilogGenerator for a design built from real py4hw objects (library block x width '
                        'grid wrapped in a top Logic, random netlists, transpiled behavioural blocks, adversarial names, optional-port reuse, two clock '
-                       'domains); distinct by (class, parameters); non-trivial = the generator returned text (>= 1 module) that was decided by wf_design; plus the '
+                       'domains, one generator object asked for several texts in sequence); distinct by (class, parameters); non-trivial = the generator returned text (>= 1 module) that was decided by wf_design; plus the '
                        'naming scopes (port names, local wire names) compared between Model/Naming.v and the real getWireNames')
     p = common.quiet_import()
     r = ctx.prove(['Properties/C03.v'])
@@ -406,7 +420,7 @@ def run(ctx):
     stages = collections.Counter(c.stage for c in cases)
     ctx.log('built %d cases in %.1fs: %s' % (len(cases), time.time() - t0, dict(stages)))
     ok = [c for c in cases if c.stage == 'ok']
-    res = evaluate('C03_wf', [(i, c.ast) for i, c in enumerate(ok)])
+    res = evaluate('C03_wf', [(i, c.ast, c.ext) for i, c in enumerate(ok)])
     programs = disagreements = 0
     by_clause = collections.Counter()
     per_finding = collections.Counter()
@@ -425,6 +439,11 @@ def run(ctx):
         programs += 1
         ctx.count(c.key())
         good, rep = res[i]
+        if c.required not in [m[1] for m in c.ast]:
+            disagreements += 1
+            violate(ctx, {'what': 'the returned text does not define the module of the requested block (%s); modules defined: %s' % (c.required, [m[1] for m in c.ast]),
+                          'case': c.id, 'class': c.cls, 'params': c.params, 'requested_module': c.required, 'text': c.text})
+            continue
         if good != (len(rep) == 0):
             ctx.violation({'what': 'harness: wf_design and wf_report disagree', 'case': c.id, 'wf_design': good, 'report': rep, 'text': c.text}, found_input=False)
             continue
@@ -446,7 +465,7 @@ def run(ctx):
                 unknown.append(dg)
         if unknown:
             violate(ctx, {'what': 'emitted Verilog is not well-formed: clause %s, module %s, identifier %s' % unknown[0], 'case': c.id, 'class': c.cls,
-                          'params': c.params, 'failing_clauses': unknown, 'all_diagnostics': rep, 'text': c.text})
+                          'params': c.params, 'failing_clauses': unknown, 'all_diagnostics': rep, 'black_boxes': c.ext, 'text': c.text})
         elif len(ctx.cov['samples']) < 6:
             ctx.sample({'case': c.id, 'wf_design': False, 'diagnostics': rep[:3], 'known_finding': classify(ctx, sc, rep[0], rep)})
     ctx.cov['programs'] = programs
@@ -472,7 +491,7 @@ def replay(rp):
         a = normalise(vparse.parse(text))
     except vparse.VParseError as ex:
         print('replay: text does not parse: %s' % ex); return 1
-    good, rep = evaluate('C03_replay', [(0, a)])[0]
+    good, rep = evaluate('C03_replay', [(0, a, rp.get('black_boxes') or [])])[0]
     print('replay: wf_design = %s' % good)
     for d in rep: print('   clause %s  module %s  identifier %s' % d)
     return 0 if good else 1
